@@ -3,6 +3,7 @@
 package pfcpiface
 
 import (
+	"time"
 	"encoding/json"
 	"errors"
 	"fmt"
@@ -220,7 +221,54 @@ func c08PdrStep(pConn *PFCPConn, st c08StepIn) (res map[string]any) {
 	out["accepted"] = true
 	out["filter"] = c08FilterOf(p.appFilter)
 	out["ue_address"] = p.ueAddress
+	c08Rules(p.appFilter, out)
 	return out
+}
+
+// c08Rules adds what the BESS plug-in would install for the two port ranges of the filter (the expansion addPDR and
+// delPDR call): "rules" = [sport, smask, dport, dmask]*, or "rules_err" when the pair is refused, or "rules_blocked"
+// when the expansion does not come back (then the process is told to stop: the goroutine cannot be killed).
+func c08Rules(a applicationFilter, out map[string]any) {
+	type res struct {
+		rules [][4]uint32
+		err   bool
+		pan   string
+	}
+	ch := make(chan res, 1)
+	go func() {
+		var r res
+		defer func() {
+			if x := recover(); x != nil {
+				r.pan = fmt.Sprint(x)
+			}
+			ch <- r
+		}()
+		prod, err := CreatePortRangeCartesianProduct(a.srcPortRange, a.dstPortRange)
+		if err != nil {
+			r.err = true
+			return
+		}
+		for _, x := range prod {
+			r.rules = append(r.rules, [4]uint32{uint32(x.srcPort), uint32(x.srcMask), uint32(x.dstPort), uint32(x.dstMask)})
+		}
+	}()
+	select {
+	case r := <-ch:
+		switch {
+		case r.pan != "":
+			out["rules_panic"] = r.pan
+		case r.err:
+			out["rules_err"] = true
+		default:
+			if r.rules == nil {
+				r.rules = [][4]uint32{}
+			}
+			out["rules"] = r.rules
+		}
+	case <-time.After(3 * time.Second):
+		out["rules_blocked"] = true
+		verifAbort = "the port-range expansion of an accepted filter does not terminate"
+	}
 }
 
 func c08PfdStep(pConn *PFCPConn, st c08StepIn, seq uint32) (res map[string]any) {
